@@ -7,7 +7,7 @@ LEAN = os.path.join(VERIF, 'lean')
 HARNESS_SRC = os.path.join(VERIF, 'tools', 'harness')
 HARNESS = os.path.join(WORK, 'harness')
 DRIVER = os.path.join(LEAN, '.lake', 'build', 'bin', 'driver')
-GOENV = dict(os.environ, GOFLAGS='-mod=mod', GOPROXY='off', GOSUMDB='off', GOTOOLCHAIN='local',
+GOENV = dict(os.environ, GOFLAGS='-mod=mod', GOPROXY='off', GOSUMDB='off', GOTOOLCHAIN='local', VERIF_BIN=WORK,
              VERIF_CORPUS=os.path.join(VERIF, 'corpus'))
 NCPU = os.cpu_count() or 4
 
@@ -45,6 +45,8 @@ KEYS = {
   'ecache': {'out': (['C16'], [])},
   'dialog': {'out': (['C07', 'C06'], [])},
   'conc': {'out': (['C06', 'C05'], [])},
+  'procuci': {'out': (['C06', 'C07'], [])},
+  'perftbin': {'perft': (['C01'], ['C01'])},
   'search': {'out': (['C04', 'C05', 'C13'], [])},
   'judge': {'bestlegal': ([], ['C04']), 'pvlegal': ([], ['C04']), 'bestfirst': ([], ['C04']), 'mateok': ([], ['C13'])},
 }
@@ -66,11 +68,12 @@ ASSERT = {
   'dialog': {'p.nopanic': ['C07', 'C06'], 'p.answered': ['C06', 'C05']},
   'timed': {'p.intime': ['C05']},
   'conc': {'p.live': ['C06', 'C05'], 'p.prompt': ['C06', 'C05'], 'p.whole': ['C06']},
+  'procuci': {'p.live': ['C06', 'C07'], 'p.prompt': ['C06'], 'p.whole': ['C06']},
   'deep': {'p.terminated': ['C05'], 'p.nopanic': ['C04', 'C05'], 'p.bestlegal': ['C04'], 'p.pvlegal': ['C04'], 'p.bestfirst': ['C04'], 'p.mateok': ['C13'], 'p.depthok': ['C05']},
   'facts': {'p.terminated': ['C05'], 'p.depthok': ['C05'], 'p.stopnow': ['C05'], 'p.nopanic': ['C04', 'C05']},
 }
 # operations whose answers are compared even outside the legal-position domain
-ALWAYS = {'fen', 'att', 'magic', 'tt', 'time', 'go', 'gof', 'prep', 'search', 'facts', 'hashdiff', 'ecache', 'dialog', 'timed', 'conc', 'deep'}
+ALWAYS = {'fen', 'att', 'magic', 'tt', 'time', 'go', 'gof', 'prep', 'search', 'facts', 'hashdiff', 'ecache', 'dialog', 'timed', 'conc', 'deep', 'procuci'}
 
 
 def sh(cmd, cwd=None, env=None, timeout=None, stdin=None):
@@ -158,6 +161,11 @@ def prepare(log):
             rc, out = sh([g2l, REPO, os.path.join(LEAN, 'Clemens', 'Gen', 'Src.lean')], env=GOENV, timeout=600)
         log.append(('go2lean (regenerate Gen/Src.lean from the source text)', rc, out[-3000:]))
         translator_note = out[-1500:] if rc != 0 else ''
+        for name, pkg in (('perftbin', './cmd/perft'), ('ucibin', './cmd/uci')):
+            rc, out = sh(['go', 'build', '-o', os.path.join(WORK, name), pkg], cwd=REPO, env=GOENV, timeout=600)
+            log.append(('go build ' + pkg, rc, out[-2000:]))
+            if rc != 0:
+                return {'ok': False, 'stage': 'repo-binary-build', 'output': out[-3000:], 'digest': dig}
         rc, out = sh([HARNESS, 'dump', os.path.join(LEAN, 'Clemens', 'Gen')], env=GOENV, timeout=300)
         log.append(('harness dump (regenerate Lean data from the running code)', rc, out[-3000:]))
         if rc != 0:
